@@ -1,5 +1,7 @@
 import ZvbiModel.Xds.Lemmas
 import ZvbiModel.Xds.LemmasSep
+import ZvbiModel.Xds.LemmasMore
+import ZvbiModel.Xds.LemmasSvc
 /-!
 # C09 - XDS packets are delivered intact, exactly once, and only with a valid checksum
 
@@ -279,29 +281,220 @@ theorem sep_deliver_iff_valid (ec : Bool) (hist : List (Nat × Nat)) (p : Packet
 example : Sep.deliveries (Sep.run false Sep.init (wire ⟨2, 1, [0x41, 0x42, 0x43]⟩ (checksum ⟨2, 1, [0x41, 0x42, 0x43]⟩))).2
     = [⟨2, 1, [0x41, 0x42, 0x43]⟩] := by decide +kernel
 
-/-! ## statements kept visible but NOT proved (listed as `open_statements` in the evidence) -/
-
-/-- OPEN (not proved; exercised by the correspondence run and the reference-receiver oracle only):
-    interleaving_independent for caption.c.  Same shape as `demux_interleaving_independent`; a foreign
-    block must additionally contain no end pair in caption context (caption.c keeps `curr_sp` across
-    caption control codes, so such an end pair would close the interrupted packet) and no network-name
-    packet 2/1 (its announcement flushes every buffer by design). -/
-def sep_interleaving_independent_statement : Prop :=
-  ∀ (ec : Bool) (hist : List (Nat × Nat)) (p : Packet), p.Valid → Sep.accepted p.cls p.sub →
-  ∀ (ck : Nat), ck < 128 → ∀ (chunk0 : List Pair) (segs : List (List Pair × List Pair)),
-    chunksOf chunk0 segs = pairsOf p.payload →
-    (∀ sg ∈ segs, Sep.ForeignBlock (Sep.slotOf p.cls p.sub) sg.1) →
+/-- interleaving_independent (caption.c, either control flow): a packet with class < 4, type < 0x18
+    that is interrupted any number of times - each interruption a block of readable pairs that starts
+    with a caption control code or an XDS header and passes `Sep.blockOk`: no header for this packet's
+    buffer, no header of the network-name packet 2/1 (announcing a different network flushes every
+    buffer by design), no end pair in caption context (caption.c keeps `curr_sp` across caption control
+    codes, so a stray end pair there would close the interrupted packet) - and re-opened each time by its
+    continue pair, is handed to `xds_decoder` exactly as if sent in one piece: once, intact, iff its
+    sum is 0.  Foreign packets (complete or not, supported or not), caption text and NULs in the
+    blocks do not matter; their own deliveries are not constrained here. -/
+theorem sep_interleaving_independent (ec : Bool) (hist : List (Nat × Nat)) (p : Packet) (hv : p.Valid)
+    (hacc : Sep.accepted p.cls p.sub) (ck : Nat) (hck : ck < 128)
+    (chunk0 : List Pair) (segs : List (List Pair × List Pair))
+    (hch : chunksOf chunk0 segs = pairsOf p.payload)
+    (hb : ∀ sg ∈ segs, Sep.ForeignBlock (Sep.slotOf p.cls p.sub) sg.1) :
     Sep.forSlot (Sep.slotOf p.cls p.sub)
       (Sep.run ec (Sep.run ec Sep.init hist).1 ((interleaved7 p ck chunk0 segs).map parPair)).2 =
-      if (bodySum p + ck) % 128 = 0 then [p.toPkt] else []
+      if (bodySum p + ck) % 128 = 0 then [p.toPkt] else [] := by
+  have hs := (Sep.inv_run ec hist (Sep.inv_init ec)).1
+  have hw := Demux.wire7_lt p hv ck hck
+  have hpay : ∀ q ∈ pairsOf p.payload, q.1 < 128 ∧ q.2 < 128 := by
+    intro q hq; apply hw; simp [wire7, hq]
+  have hlt : ∀ q ∈ interleaved7 p ck chunk0 segs, q.1 < 128 ∧ q.2 < 128 := by
+    intro q hq
+    simp only [interleaved7, List.mem_cons, List.mem_append, List.mem_flatMap, List.not_mem_nil, or_false,
+      List.cons_append] at hq
+    rcases hq with rfl | (hq | ⟨sg, hsg, hq⟩) | rfl
+    · apply hw; simp [wire7]
+    · apply hpay; rw [← hch]; simp [chunksOf, hq]
+    · rcases hq with hq | rfl | hq
+      · exact (hb sg hsg).2.2 q hq
+      · have := hv.cls_lt; have := hv.sub_lt; simp only [contPair]; omega
+      · apply hpay; rw [← hch]; simp only [chunksOf, List.mem_append, List.mem_flatMap]
+        exact Or.inr ⟨sg, hsg, hq⟩
+    · apply hw; simp [wire7]
+  rw [Sep.run_map_parPair ec _ _ hlt]
+  exact Sep.deliver_interleaved7 ec hs p hv hacc ck chunk0 segs hch hb
 
-/-- OPEN (not proved; `sep_parity_error_counterexample` shows it is false for `ec = false`):
-    one byte of a transmitted packet received with a parity error - nothing is delivered, once the
-    parity-error branch of `xds_separator` clears `cc->curr_sp`. -/
-def sep_parity_error_not_delivered_statement : Prop :=
-  ∀ (hist : List (Nat × Nat)) (p : Packet), p.Valid → Sep.accepted p.cls p.sub →
-  ∀ (ck : Nat), ck < 128 → ∀ (n : Nat) (q : Nat × Nat), (wire p ck)[n]? = some q →
-  ∀ (bad : Nat × Nat), (bad = (q.1 ^^^ 0x80, q.2) ∨ bad = (q.1, q.2 ^^^ 0x80)) →
-    Sep.deliveries (Sep.run true (Sep.run true Sep.init hist).1 ((wire p ck).set n bad)).2 = []
+/-- an instance: title "ABCD" interrupted by a caption control code, a text pair, a complete packet
+    0/2 "XY" and more caption; the block is a `ForeignBlock` and both packets are delivered -/
+example :
+    Sep.ForeignBlock (Sep.slotOf 0 3)
+      [(0x14, 0x2C), (0x54, 0x56), (1, 2), (0x58, 0x59), (0x0F, checksum ⟨0, 2, [0x58, 0x59]⟩), (0x14, 0x2F)] ∧
+    Sep.deliveries (Sep.run true Sep.init ((interleaved7 ⟨0, 3, [0x41, 0x42, 0x43, 0x44]⟩
+      (checksum ⟨0, 3, [0x41, 0x42, 0x43, 0x44]⟩) [(0x41, 0x42)]
+      [([(0x14, 0x2C), (0x54, 0x56), (1, 2), (0x58, 0x59), (0x0F, checksum ⟨0, 2, [0x58, 0x59]⟩), (0x14, 0x2F)],
+        [(0x43, 0x44)])]).map parPair)).2
+      = [⟨0, 2, [0x58, 0x59]⟩, ⟨0, 3, [0x41, 0x42, 0x43, 0x44]⟩] := by
+  refine ⟨⟨⟨_, _, rfl, by decide, by decide, by decide⟩, by decide, ?_⟩, by decide +kernel⟩
+  intro q hq
+  simp only [List.mem_cons, List.not_mem_nil, or_false] at hq
+  rcases hq with rfl | rfl | rfl | rfl | rfl | rfl <;> decide
+
+/-- a parity error is never delivered (caption.c with the repaired parity branch, `ec = true`, the
+    current tree): replace the `n`-th pair of a transmitted packet by a pair that reaches the
+    parity-error branch of `xds_separator` (`Sep.Damaged`: first byte unreadable, or first byte a
+    readable XDS control code / character and second byte unreadable) - nothing is delivered, whatever
+    the checksum byte.  If the damaged pair is the start pair itself (`n = 0`) the decoder must not be
+    left with a packet pointer from before (`curr = none`): with a stale pointer the orphaned end pair
+    would close that older packet.  False for `ec = false`: `sep_parity_error_counterexample`. -/
+theorem sep_parity_error_not_delivered (hist : List (Nat × Nat)) (p : Packet) (hv : p.Valid)
+    (hacc : Sep.accepted p.cls p.sub) (ck : Nat) (hck : ck < 128) (n : Nat) (hn : n < (wire p ck).length)
+    (hidle : n = 0 → (Sep.run true Sep.init hist).1.curr = none)
+    (bad : Nat × Nat) (hbad : Sep.Damaged bad) :
+    Sep.deliveries (Sep.run true (Sep.run true Sep.init hist).1 ((wire p ck).set n bad)).2 = [] :=
+  Sep.fault_wire (Sep.inv_run true hist (Sep.inv_init true)).1 p hv hacc ck hck n
+    (by simpa [wire] using hn) hidle bad hbad
+
+/-- the single-byte fault the property speaks of is such a pair: one byte of the `n`-th pair received
+    with its parity bit flipped -/
+theorem sep_parity_flip_is_damaged (p : Packet) (hv : p.Valid) (ck : Nat) (hck : ck < 128) (n : Nat)
+    (q : Nat × Nat) (hq : (wire p ck)[n]? = some q) (bad : Nat × Nat)
+    (hbad : bad = (q.1 ^^^ 0x80, q.2) ∨ bad = (q.1, q.2 ^^^ 0x80)) : Sep.Damaged bad :=
+  Sep.flip_damaged p hv ck hck n q hq bad hbad
+
+example : Sep.Damaged (0x43, 0x36) ∧ Sep.deliveries (Sep.run true Sep.init witnessParity).2 = [] := by
+  refine ⟨Or.inr ⟨0x43, by decide +kernel, by decide, by decide +kernel⟩, by decide +kernel⟩
+
+/-- oversize_not_delivered (xds_demux.c): in every reachable state a packet of an accepted (class, type)
+    with more than 32 characters (any number) sent in one piece delivers nothing - not even a truncated
+    packet - whatever the checksum byte. -/
+theorem demux_oversize_not_delivered (rk : Bool) (hist : List (Nat × Nat)) (p : Packet)
+    (hcls : p.cls < 7) (hsub : p.sub < 128) (hc : ∀ c ∈ p.payload, isChar c) (hlen : 32 < p.payload.length)
+    (hacc : Demux.accepted p.cls p.sub) (ck : Nat) (hck : ck < 128) :
+    Demux.deliveries (Demux.run rk (Demux.run rk Demux.init hist).1 (wire p ck)).2 = [] := by
+  unfold wire
+  rw [Demux.run_map_parPair rk _ _ (wire7_lt' p hcls hsub hc ck hck)]
+  exact Demux.oversize7 rk (Demux.inv_run rk hist Demux.inv_init).1 p hc hlen hacc ck
+
+example : Demux.deliveries (Demux.run true Demux.init (wire ⟨0, 3, List.replicate 33 0x41⟩
+    (checksum ⟨0, 3, List.replicate 33 0x41⟩))).2 = [] ∧ (bodySum ⟨0, 3, List.replicate 33 0x41⟩ +
+    checksum ⟨0, 3, List.replicate 33 0x41⟩) % 128 = 0 := by decide +kernel
+
+/-- oversize_not_delivered (caption.c, either control flow) -/
+theorem sep_oversize_not_delivered (ec : Bool) (hist : List (Nat × Nat)) (p : Packet)
+    (hcls : p.cls < 7) (hsub : p.sub < 128) (hc : ∀ c ∈ p.payload, isChar c) (hlen : 32 < p.payload.length)
+    (hacc : Sep.accepted p.cls p.sub) (ck : Nat) (hck : ck < 128) :
+    Sep.deliveries (Sep.run ec (Sep.run ec Sep.init hist).1 (wire p ck)).2 = [] := by
+  unfold wire
+  rw [Sep.run_map_parPair ec _ _ (wire7_lt' p hcls hsub hc ck hck)]
+  exact Sep.oversize7 ec (Sep.inv_run ec hist (Sep.inv_init ec)).1 p hc hlen hacc ck
+
+example : Sep.deliveries (Sep.run true Sep.init (wire ⟨0, 3, List.replicate 40 0x41⟩
+    (checksum ⟨0, 3, List.replicate 40 0x41⟩))).2 = [] := by decide +kernel
+
+
+/-! ## the service decoder behind the separator (`Svc`: model of `xds_decoder`) -/
+
+/-- prog_info_equals_packets, programme name, at the level of delivered packets (any decoder state):
+    decoding a title packet (class current or future, type 3, at least 2 characters) stores exactly the
+    packet's text (`xds_strfu`: leading blanks removed) as title, and every event raised while it is
+    decoded is a PROG_INFO event of that class carrying that text. -/
+theorem prog_info_title_faithful (v : Svc.State) (cls : Nat) (data : List Nat) (hn : 2 ≤ data.length) :
+    ((Svc.feed v ⟨cls, 3, data⟩).1.pi cls).title = Svc.strfuText data ∧
+    ∀ ev ∈ (Svc.feed v ⟨cls, 3, data⟩).2, ∃ e, ev = Svc.Ev.progInfo cls e ∧ e.title = Svc.strfuText data :=
+  Svc.title_faithful v cls data hn
+
+example : Svc.strfuText [0x20, 0x20, 0x41, 0x10, 0x42] = [0x41, 0x20, 0x42] := by decide
+
+/-- "announced after the documented repeat", programme name: a title packet whose text differs from
+    the stored title raises nothing the first time, exactly one PROG_INFO event carrying the new text
+    when it is repeated unchanged, and nothing at the third identical occurrence (any decoder state;
+    a new title that is a proper prefix of the old one included - the seeded mutant C09-b breaks this). -/
+theorem prog_info_title_second_occurrence (v : Svc.State) (cls : Nat) (data : List Nat) (hn : 2 ≤ data.length)
+    (hneq : Svc.strfuText data ≠ (v.pi cls).title) :
+    (Svc.feed v ⟨cls, 3, data⟩).2 = [] ∧
+    (∃ e, (Svc.feed (Svc.feed v ⟨cls, 3, data⟩).1 ⟨cls, 3, data⟩).2 = [Svc.Ev.progInfo cls e] ∧
+      e.title = Svc.strfuText data) ∧
+    (Svc.feed (Svc.feed (Svc.feed v ⟨cls, 3, data⟩).1 ⟨cls, 3, data⟩).1 ⟨cls, 3, data⟩).2 = [] ∧
+    ((Svc.feed (Svc.feed (Svc.feed v ⟨cls, 3, data⟩).1 ⟨cls, 3, data⟩).1 ⟨cls, 3, data⟩).1.pi cls).title =
+      Svc.strfuText data :=
+  Svc.title_second_occurrence v cls data hn hneq
+
+/-- prog_info_equals_packets, programme name, end to end on the byte-pair stream: in every reachable
+    state of the decoder (separator + service decoder after any history, either control flow), a valid
+    title packet whose text differs from the stored title, transmitted twice in a row on line 284,
+    raises exactly one event in total - PROG_INFO of its class carrying the packet's text. -/
+theorem prog_info_equals_packets_title (ec : Bool) (hist : List (Nat × Nat)) (p : Packet) (hv : p.Valid)
+    (hcls : p.cls ≤ 1) (hsub : p.sub = 3) (hn : 2 ≤ p.payload.length) :
+    let st := (Svc.run ec (Sep.init, Svc.init) hist).1
+    Svc.strfuText p.payload ≠ (st.2.pi p.cls).title →
+    ∃ e, (Svc.run ec st (wire p (checksum p) ++ wire p (checksum p))).2 = [Svc.Ev.progInfo p.cls e] ∧
+      e.title = Svc.strfuText p.payload := by
+  intro st hneq
+  have hacc : Sep.accepted p.cls p.sub := by
+    simp only [Sep.accepted, sepClasses, sepSubclasses, hsub]; omega
+  have hs : Sep.Inv ec st.1 := by
+    have := Svc.run_sep ec hist Sep.init Svc.init
+    simp only [st]; rw [this]; exact (Sep.inv_run ec hist (Sep.inv_init ec)).1
+  have hd := Svc.deliveries_twice ec hs p hv hacc
+  obtain ⟨_, _, g3⟩ := Svc.run_feedAll ec (wire p (checksum p) ++ wire p (checksum p)) st.1 st.2 (by
+    rw [hd]; intro q hq
+    simp only [List.mem_cons, List.not_mem_nil, or_false, or_self] at hq
+    subst hq; exact hcls)
+  have hst : st = (st.1, st.2) := rfl
+  rw [hst, g3, hd]
+  obtain ⟨t1, ⟨e, t2, t3⟩, _, _⟩ := Svc.title_second_occurrence st.2 p.cls p.payload hn hneq
+  refine ⟨e, ?_, t3⟩
+  simp only [Svc.feedAll, Packet.toPkt, hsub, List.append_nil]
+  rw [t1, t2]; rfl
+
+example : (Svc.run true (Sep.init, Svc.init)
+    (wire ⟨0, 3, [0x54, 0x56]⟩ (checksum ⟨0, 3, [0x54, 0x56]⟩) ++ wire ⟨0, 3, [0x54, 0x56]⟩ (checksum ⟨0, 3, [0x54, 0x56]⟩))).2
+    = [Svc.Ev.progInfo 0 { title := [0x54, 0x56] }] := by decide +kernel
+
+/-- prog_info_equals_packets, network name and call letters (any network state): decoding a network
+    name packet stores the packet's text as name and keeps the call letters; a call-letters packet
+    stores its text as call letters, raises no event and never resets the decoder. -/
+theorem network_name_call_faithful (n : Sep.Net) (data : List Nat) :
+    (Sep.netDecode n ⟨2, 1, data⟩).1.name = Svc.strfuText data ∧
+    (Sep.netDecode n ⟨2, 1, data⟩).1.call = n.call ∧
+    (Sep.netDecode n ⟨2, 2, data⟩).1.call = Svc.strfuText data ∧
+    Svc.netEvents n ⟨2, 2, data⟩ = [] ∧ (Sep.netDecode n ⟨2, 2, data⟩).2 = false :=
+  ⟨(Svc.netDecode_name n data).1, (Svc.netDecode_name n data).2, (Svc.netDecode_call n data).1,
+   (Svc.netDecode_call n data).2.1, (Svc.netDecode_call n data).2.2⟩
+
+/-- "announced after the documented repeat", network name: a name packet whose text differs from the
+    stored name raises nothing the first time; repeated unchanged it raises NETWORK_ID, preceded by
+    NETWORK (new name, call letters, new station id) iff the station id changed; the third identical
+    occurrence raises nothing. -/
+theorem network_name_second_occurrence (n : Sep.Net) (data : List Nat) (hneq : Svc.strfuText data ≠ n.name) :
+    let p : Pkt := ⟨2, 1, data⟩
+    let n1 := (Sep.netDecode n p).1
+    let n2 := (Sep.netDecode n1 p).1
+    Svc.netEvents n p = [] ∧
+    Svc.netEvents n1 p =
+      (if n2.nuid != n.nuid then [Svc.Ev.network (Svc.strfuText data) n.call n2.nuid n.tapeDelay] else [])
+        ++ [Svc.Ev.networkId] ∧
+    Svc.netEvents n2 p = [] ∧ n2.name = Svc.strfuText data :=
+  Svc.network_second_occurrence n data hneq
+
+example : Svc.netEvents (Sep.netDecode {} ⟨2, 1, [0x41, 0x42, 0x43]⟩).1 ⟨2, 1, [0x41, 0x42, 0x43]⟩ =
+    [Svc.Ev.network [0x41, 0x42, 0x43] [] 1835754624 0, Svc.Ev.networkId] := by decide +kernel
+
+
+/-- "announced after the documented repeat" is FALSE for the programme type (packet type 4) on the
+    current tree: `case 4` of `xds_decoder` declares its own `int neq`, which hides the variable the
+    epilogue tests, so a programme-type packet - first, second or any later occurrence, changed or not -
+    never raises PROG_INFO and never sets its bit in `info_cycle` (so the
+    hypothesis that the bit is clear holds from `Svc.init` on); the type only rides along with an
+    event another packet type triggers.  `Gen.Xds.svcTypeNeqShadowed` is read from the source
+    (fixes/xds-prog-type-neq-shadow.diff removes the inner declaration). -/
+theorem prog_info_type_never_announced_counterexample (h : svcTypeNeqShadowed = true)
+    (v : Svc.State) (cls : Nat) (data : List Nat) (h4 : (v.cyc cls).contains 4 = false) :
+    (Svc.feed v ⟨cls, 4, data⟩).2 = [] ∧ (Svc.feed v ⟨cls, 4, data⟩).1.cyc cls = v.cyc cls ∧
+    (Svc.feed (Svc.feed v ⟨cls, 4, data⟩).1 ⟨cls, 4, data⟩).2 = [] := by
+  have e : ∀ w : Svc.State, (w.cyc cls).contains 4 = false →
+      (Svc.feed w ⟨cls, 4, data⟩).2 = [] ∧ (Svc.feed w ⟨cls, 4, data⟩).1.cyc cls = w.cyc cls := by
+    intro w hw
+    have hw' : ¬ 4 ∈ w.cyc cls := by simpa using hw
+    simp [Svc.feed, h, Svc.epilogue, hw']
+  obtain ⟨e1, e2⟩ := e v h4
+  exact ⟨e1, e2, (e _ (by rw [e2]; exact h4)).1⟩
+
+/-- the hypothesis on `info_cycle` holds in the initial state (the flag itself is whatever the source says) -/
+example : (Svc.init.cyc 0).contains 4 = false ∧ (Svc.init.cyc 1).contains 4 = false := by decide
 
 end Zvbi.Props.C09
